@@ -294,13 +294,17 @@ pub fn hostile(args: &[String]) {
         let c = Cfg { kind, method, x0, xend, rtol, atol: rtol * 1e-2, first: None, maxstep: None, nmax };
         let p = Prob::new(kind);
         let y0 = p.y0();
-        let b = Budgeted { p: &p, limit: 20_000_000, nan_after, jump_at, x0 };
+        // a user min_step (an option of solve_ivp that reaches Radau and BDF) on every third implicit run
+        let min_step = if matches!(method, Method::RADAU | Method::BDF) && (case % 3 == 1 || (case < 18 && case % 6 >= 4)) { Some(10f64.powf(-rng.range(2.0, 5.0))) } else { None };
+        let b = Budgeted { p: &p, limit: if min_step.is_some() { 3_000_000 } else { 20_000_000 }, nan_after, jump_at, x0 };
         let t0 = std::time::Instant::now();
-        let res = catch_unwind(AssertUnwindSafe(|| solve_ivp(&b, x0, xend, &y0, c.opts())));
+        let mut o = c.opts();
+        o.min_step = min_step;
+        let res = catch_unwind(AssertUnwindSafe(|| solve_ivp(&b, x0, xend, &y0, o)));
         let secs = t0.elapsed().as_secs_f64();
         let mut why = String::new();
         let mut key = "";
-        let mut extra = format!("\"variant\":\"{}\",\"seconds\":{:.3},\"rhs_calls\":{},", name, secs, p.count.get());
+        let mut extra = format!("\"variant\":\"{}\",\"min_step\":{},\"seconds\":{:.3},\"rhs_calls\":{},", name, min_step.map(jnum).unwrap_or("null".into()), secs, p.count.get());
         match res {
             Err(_) => { why = format!("{}: solve_ivp panicked or did not finish within 2e7 right-hand-side calls", name); key = "c04-hang-or-panic"; }
             Ok(Err(_)) => { extra += "\"status\":\"Err\","; }
